@@ -101,6 +101,9 @@ type Property struct {
 	QuickWall, ThoroughWall time.Duration
 	// Enumerate, if set, yields the plans of a finite space instead of Gen.
 	Enumerate func(tier string, seed uint64) []*Plan
+	// Directed, if set, yields a few plans that every batch executes first (run indexes 0..n-1), before
+	// the seeded ones: scenarios too rare to rely on the draw of a short batch.
+	Directed func(tier string, seed uint64) []*Plan
 	// MaxWorkers / WorkerProcs bound the fan-out for expensive rigs whose
 	// generators parallelise internally (0 = default 16 x GOMAXPROCS 1).
 	MaxWorkers, WorkerProcs int
@@ -291,7 +294,7 @@ func Worker(prop *Property, tier string, seed uint64, idx, of int, w *bufio.Writ
 		if enumerated != nil {
 			plan = enumerated[run]
 		} else {
-			plan = prop.Gen(core.NewRng(runSeed), tier)
+			plan = SeededPlan(prop, tier, seed, run)
 		}
 		plan.Prop = prop.ID
 		enc.Encode(&RunRecord{Run: run, RunSeed: runSeed, Plan: plan, Starting: true})
@@ -472,9 +475,20 @@ func firstLines(s string, n int) string {
 }
 
 // One executes a single run (by index) and prints its record; for debugging.
+// SeededPlan is the plan of run index `run` of a seeded (not enumerated) property.
+func SeededPlan(prop *Property, tier string, seed uint64, run int) *Plan {
+	if prop.Directed != nil {
+		if d := prop.Directed(tier, seed); run < len(d) {
+			return d[run]
+		}
+	}
+	runSeed := core.SplitMix64(seed ^ core.SplitMix64(uint64(run)+1))
+	return prop.Gen(core.NewRng(runSeed), tier)
+}
+
 func One(prop *Property, tier string, seed uint64, run int) int {
 	runSeed := core.SplitMix64(seed ^ core.SplitMix64(uint64(run)+1))
-	plan := prop.Gen(core.NewRng(runSeed), tier)
+	plan := SeededPlan(prop, tier, seed, run)
 	plan.Prop = prop.ID
 	t0 := time.Now()
 	out := execGuard(prop, plan)
@@ -488,8 +502,7 @@ func One(prop *Property, tier string, seed uint64, run int) int {
 
 // Digest prints the canonical-log digest of one run (determinism self-test).
 func Digest(prop *Property, tier string, seed uint64, run int) int {
-	runSeed := core.SplitMix64(seed ^ core.SplitMix64(uint64(run)+1))
-	plan := prop.Gen(core.NewRng(runSeed), tier)
+	plan := SeededPlan(prop, tier, seed, run)
 	plan.Prop = prop.ID
 	out := execGuard(prop, plan)
 	if out.ToolError != "" {
